@@ -47,7 +47,8 @@ def canonical_rets(recv):
     own = recv == "own"
     out = [("unit", R.RUnit()), ("scalar", R.RVal("u64")), ("pod", R.RVal("Pod1")), ("opt", R.ROpt("u32")), ("opt-pod", R.ROpt("Pod1")), ("opt-rawptr", R.ROpt("*const u8")),
            ("result", R.RRes("u8", "i32")), ("int-io", R.RIntRes("u64", "io")), ("int-unit-payload", R.RIntRes("()", "unit")),
-           ("int-user", R.RIntRes("Pod1", "UErr"))]
+           ("int-user", R.RIntRes("Pod1", "UErr")),
+           ("int-alias-user", R.RIntRes("u64", "UErr", True)), ("int-alias-io", R.RIntRes("()", "io", True))]
     if recv in ("ref", "mut", "own"):
         out.append(("child-owned", R.RChild("owned", False)))
         out.append(("childgroup-owned", R.RChild("owned", True)))
@@ -77,7 +78,9 @@ def single_method_traits():
                     if isinstance(ret, gen.RChild) and ret.mode != "owned" and any(a.reflike for a in args):
                         continue  # unsupported combination (see gen.gen_trait)
                     m = gen.Method(0, f"e{k}_0", recv, args, ret)
-                    if ret.int_result is True and not trait_ir:
+                    if getattr(ret, "alias", None):
+                        m.attrs.append(f"#[int_result({ret.alias})]")
+                    elif ret.int_result is True and not trait_ir:
                         m.attrs.append("#[int_result]")
                     if ret.int_result is False and trait_ir:
                         m.attrs.append("#[no_int_result]")
